@@ -3,7 +3,7 @@ import pipeline
 
 LEAN_MODULES = ['PomerolModel.Properties.C14']
 GENERATED = ['susc']
-THEOREMS = ["Pomerol.Properties.C14." + t for t in ['susceptibility_equals_definition', 'static_limit', 'tau_is_correlator', 'tau_frequency_consistent', 'disconnected_part']]
+THEOREMS = ["Pomerol.Properties.C14." + t for t in ['susceptibility_equals_definition', 'static_limit', 'tau_is_correlator', 'tau_frequency_consistent', 'disconnected_part', 'library_tolerances', 'value_with_library_tolerances', 'exact_when_no_near_degeneracy', 'known_finding_F14_residue_filter', 'F14_parametric']]
 RULE = 'a case = random model (many with exact degeneracies), all (a,b,c,d) sampled incl. S_z-changing ones, bosonic n in {0,+-1,..}, three ways of supplying the averages, tau grid; compared with the full-space bosonic Lehmann sum; every fourth case has an exact degeneracy lifted by a tiny level shift (1e-10 .. 1e-4); a tolerance decision of the library that is numerically undecidable (within 1e-4 relative of 1e-8) widens the comparison budget by the term concerned and is counted as ambiguous; the minimised near-degenerate case of finding F14 (corpus/C14) runs first; non-trivial = distinct case with a degenerate pair of levels contributing at n=0 or at least two modes'
 TRUSTED = ["harness/pipe.cpp drives the real classes along the documented workflow; case-file protocol with hex doubles",
            "numeric oracle (lean/Driver/Numeric*.lean): IEEE double arithmetic of compiled Lean, full-Fock-space sums",
@@ -11,7 +11,7 @@ TRUSTED = ["harness/pipe.cpp drives the real classes along the documented workfl
 ASSUMPTIONS = ["exact real/complex arithmetic in the theorems; tolerance tests idealised unless stated",
                "numerical comparison tolerance: proven budget + 1e-9 relative rounding slack"]
 LEVEL_TEXT = 'Proof: lehmann_susc (definition = bosonic Lehmann sum with the beta-proportional zero-pole term at W=0, every spectrum, every n in Z) composed with susc_sum (formulas extracted from SusceptibilityPart.cpp/.h, exact degeneracy test), tau-form = correlator, forward transform, disconnected part = transform of the constant. Tie: differential oracle incl. n=0, negatives and the three subtraction paths.'
-LEVEL_NOTE = 'Trusted: as C01. The 1e-8 degeneracy/residue tolerances are idealised to exact tests in the theorems; the oracle allows dropped residues only up to numerical precision.'
+LEVEL_NOTE = 'Trusted: as C01. Five theorems idealise the 1e-8 degeneracy/residue tolerances to exact tests; value_with_library_tolerances states the exact deviation caused by the extracted tolerance tests, exact_when_no_near_degeneracy when it vanishes, known_finding_F14_residue_filter proves (for the extracted constants) that a two-level system split by 2e-8 at beta=1 returns 0 where the definition is >= 1/5: the property is FALSE of the current code there (known finding F14, replayed by corpus/C14).'
 TECHNIQUE = 'Lean 4/Mathlib proof of the bosonic Lehmann representation over extracted formulas + differential oracle'
 DESIGN_REF = "DESIGN.md section 6, C14"
 
